@@ -5,12 +5,15 @@
 package main
 
 import (
+	"bufio"
 	"bytes"
 	"crypto/sha256"
 	"encoding/hex"
 	"encoding/json"
 	"fmt"
+	"io"
 	"os"
+	"os/exec"
 	"runtime"
 	"runtime/debug"
 	"runtime/metrics"
@@ -289,6 +292,7 @@ type txObs struct {
 	alloc               uint64
 	allocExact          bool
 	serPanic, sizePanic string
+	capDiff             string
 }
 
 var allocSample = [1]metrics.Sample{{Name: "/gc/heap/allocs:bytes"}}
@@ -304,7 +308,7 @@ func observeTx(raw []byte, exactAlloc bool) (ob txObs) {
 			}
 		}()
 		if exactAlloc {
-			// exact but slow (stops the world): used for the corpus / huge-count / length-form streams and 1 in 16 others
+			// exact but slow (stops the world): used for the corpus / huge-count / length-form streams and 1 in 4 others
 			var m0, m1 runtime.MemStats
 			runtime.ReadMemStats(&m0)
 			tx, ob.n = btc.NewTx(b)
@@ -328,6 +332,24 @@ func observeTx(raw []byte, exactAlloc bool) (ob txObs) {
 			}
 		}()
 		ob.txsize = btc.TxSize(b)
+	}()
+	// the same bytes inside a larger buffer (spare capacity holding zeros, which complete a cut-off
+	// lock_time / count into something decodable): the result must not depend on the capacity
+	func() {
+		defer func() {
+			if x := recover(); x != nil {
+				ob.capDiff = "panic with spare capacity: " + fmt.Sprint(x)
+			}
+		}()
+		big := make([]byte, len(raw)+24)
+		copy(big, raw)
+		tx2, n2 := btc.NewTx(big[:len(raw)])
+		if (tx2 == nil) != (tx == nil) || n2 != ob.n {
+			ob.capDiff = fmt.Sprintf("with 24 spare bytes of capacity: tx!=nil %v consumed %d; exact capacity: tx!=nil %v consumed %d", tx2 != nil, n2, tx != nil, ob.n)
+		}
+		if s2 := btc.TxSize(big[:len(raw)]); s2 != ob.txsize && ob.sizePanic == "" {
+			ob.capDiff += fmt.Sprintf(" TxSize %d vs %d", s2, ob.txsize)
+		}
 	}()
 	if tx == nil {
 		return
@@ -372,7 +394,19 @@ func rep(op string, raw []byte) map[string]interface{} {
 // checkTx evaluates the property predicate on the real code for one byte string and compares with the model.
 func checkTx(kind string, raw []byte) {
 	obsCount++
-	exactAlloc := obsCount%16 == 0 || strings.HasPrefix(kind, "corpus") || strings.HasPrefix(kind, "huge") || strings.HasPrefix(kind, "lenform") || kind == "replay"
+	exactAlloc := obsCount%4 == 0 || strings.HasPrefix(kind, "corpus") || strings.HasPrefix(kind, "huge") || strings.HasPrefix(kind, "lenform") || kind == "replay"
+	{
+		a, alive := probe("t", raw)
+		if !alive || a > 64*uint64(len(raw))+(1<<20) {
+			what := fmt.Sprintf("btc.NewTx/TxSize allocated %d bytes for an input of %d bytes", a, len(raw))
+			if !alive {
+				what = fmt.Sprintf("btc.NewTx/TxSize on an input of %d bytes exhausted a 3 GiB address space (process died)", len(raw))
+			}
+			r.Eval(kind+":alloc-out-of-proportion", "tx"+string(raw))
+			r.PropFail("tx-alloc", what+" input="+short(raw), rep("tx", raw))
+			return // not run in-process: it would take the harness down
+		}
+	}
 	ob := observeTx(raw, exactAlloc)
 	ref, rn, rerr := refParse(raw, false)
 	deviates := false
@@ -407,6 +441,9 @@ func checkTx(kind string, raw []byte) {
 	// ---- property on the real code
 	if ob.panicked != "" {
 		fail("tx-panic", "btc.NewTx panicked: "+ob.panicked)
+	}
+	if ob.capDiff != "" {
+		fail("tx-reads-past-len", "btc.NewTx/TxSize depend on the capacity of the slice, i.e. read past its length: "+ob.capDiff)
 	}
 	if ob.sizePanic != "" {
 		fail("txsize-panic", "btc.TxSize panicked: "+ob.sizePanic)
@@ -470,12 +507,20 @@ func checkTx(kind string, raw []byte) {
 				maxAllocRatio, maxAllocCase = ratio, short(raw)
 			}
 		}
-		if ob.alloc > 64*uint64(len(raw))+8192 {
+		slack := uint64(8192)
+		if !ob.allocExact {
+			slack = 4 << 20 // the cheap counter is updated in bulk when per-P caches are flushed
+		}
+		if ob.alloc > 64*uint64(len(raw))+slack {
 			fail("tx-alloc", fmt.Sprintf("btc.NewTx allocated %d bytes for an input of %d bytes", ob.alloc, len(raw)))
 		}
 	}
 	// ---- tie: model vs implementation
+	tq := time.Now()
 	ans := o.MustAsk("tx " + vlib.Hex(raw))
+	if os.Getenv("VERIF_DEBUG") != "" && time.Since(tq) > 50*time.Millisecond {
+		fmt.Printf("slow oracle %.0fms len=%d kind=%s ok=%v nin=%d nout=%d\n", time.Since(tq).Seconds()*1000, len(raw), kind, ob.ok, ob.nin, ob.nout)
+	}
 	var got string
 	if !ob.ok {
 		got = "none"
@@ -787,6 +832,15 @@ func observeBlock(raw []byte, dohash bool) (ob blkObs) {
 }
 
 func checkBlock(kind string, raw []byte) {
+	if a, alive := probe("b", raw); !alive || a > 64*uint64(len(raw))+(1<<20) {
+		what := fmt.Sprintf("btc.NewBlock+BuildTxList allocated %d bytes for an input of %d bytes", a, len(raw))
+		if !alive {
+			what = fmt.Sprintf("btc.NewBlock+BuildTxList on an input of %d bytes crashed the process or exhausted a 3 GiB address space", len(raw))
+		}
+		r.Eval(kind+":alloc-or-crash", "blk"+string(raw))
+		r.PropFail("block-alloc-or-crash", what+" input="+short(raw), rep("block", raw))
+		return
+	}
 	ob := observeBlock(raw, true)
 	ob2 := observeBlock(raw, false)
 	r.Eval(kind+":"+ob.err, "blk"+string(raw))
@@ -968,6 +1022,83 @@ func vectorTxs() (out [][]byte) {
 	return
 }
 
+// ---------------------------------------------------------------- allocation probe (child process)
+// Every input is first run in a child process whose address space is
+// limited: a decoder that allocates GiBs for a 60-byte input kills the child, not the harness, and the input is
+// reported with a replay file.
+
+func probeMain() {
+	lim := syscall.Rlimit{Cur: 3 << 30, Max: 3 << 30}
+	syscall.Setrlimit(syscall.RLIMIT_AS, &lim)
+	if nul, e := os.OpenFile("/dev/null", os.O_WRONLY, 0); e == nil {
+		syscall.Dup3(int(nul.Fd()), 2, 0)
+	}
+	sc := bufio.NewScanner(os.Stdin)
+	sc.Buffer(make([]byte, 1<<20), 1<<26)
+	out := bufio.NewWriter(os.Stdout)
+	for sc.Scan() {
+		line := sc.Text()
+		raw := vlib.UnHex(line[1:])
+		var alloc uint64
+		func() {
+			defer func() { recover() }()
+			var m0, m1 runtime.MemStats
+			runtime.ReadMemStats(&m0)
+			if line[0] == 'b' {
+				if bl, er := btc.NewBlock(exact(raw)); er == nil {
+					bl.BuildTxListExt(false)
+				}
+			} else {
+				btc.NewTx(exact(raw))
+				btc.TxSize(exact(raw))
+			}
+			runtime.ReadMemStats(&m1)
+			alloc = m1.TotalAlloc - m0.TotalAlloc
+		}()
+		fmt.Fprintf(out, "%d\n", alloc)
+		out.Flush()
+	}
+}
+
+type probeProc struct {
+	cmd *exec.Cmd
+	in  io.WriteCloser
+	out *bufio.Reader
+}
+
+var prober *probeProc
+
+func startProbe() {
+	cmd := exec.Command(os.Args[0], "-probe")
+	in, _ := cmd.StdinPipe()
+	out, _ := cmd.StdoutPipe()
+	if cmd.Start() != nil {
+		prober = nil
+		return
+	}
+	prober = &probeProc{cmd, in, bufio.NewReader(out)}
+}
+
+// probe returns the bytes allocated by NewTx+TxSize in the child, ok=false when the child died on this input.
+func probe(what string, raw []byte) (alloc uint64, ok bool) {
+	if prober == nil {
+		startProbe()
+		if prober == nil {
+			return 0, true
+		}
+	}
+	io.WriteString(prober.in, what+vlib.Hex(raw)+"\n")
+	line, err := prober.out.ReadString('\n')
+	if err != nil {
+		prober.in.Close()
+		prober.cmd.Wait()
+		prober = nil
+		return 0, false
+	}
+	alloc, _ = strconv.ParseUint(strings.TrimSpace(line), 10, 64)
+	return alloc, true
+}
+
 // ---------------------------------------------------------------- main
 
 func mutations(g *vlib.Rng, b []byte, pos int) [][]byte {
@@ -983,6 +1114,10 @@ func mutations(g *vlib.Rng, b []byte, pos int) [][]byte {
 }
 
 func main() {
+	if len(os.Args) > 1 && os.Args[1] == "-probe" {
+		probeMain()
+		return
+	}
 	r = vlib.NewRun("C09")
 	var err error
 	o, err = vlib.StartOracle("c09")
@@ -1026,9 +1161,9 @@ func main() {
 	phase("corpus")
 	// 2. valid encodings of random transactions (+ trailing bytes)
 	var pool []refTx
-	nvalid := r.N(1500, 40000)
+	nvalid := r.N(1500, 30000)
 	for i := 0; i < nvalid; i++ {
-		t := genTx(g, i%10 == 0)
+		t := genTx(g, i%40 == 0)
 		b := refSerialize(&t, true)
 		if _, _, e := refParse(b, false); e == "" && len(b) < 3000 && len(pool) < 4000 {
 			pool = append(pool, t)
@@ -1045,7 +1180,7 @@ func main() {
 	phase("valid")
 	// 3. EVERY truncation and every position mutated, of a sample (small ones exhaustively; of larger ones every
 	// truncation point near a field boundary is still hit because all prefixes are taken, mutations at 150 positions)
-	nsample := r.N(14, 300)
+	nsample := r.N(14, 150)
 	var small []refTx
 	for _, t := range pool {
 		if b := refSerialize(&t, true); len(b) <= 260 {
@@ -1188,10 +1323,9 @@ func main() {
 	r.Extra["alloc_cases_measured"] = allocMeasured
 	r.Extra["alloc_max_bytes_per_input_byte"] = maxAllocRatio
 	r.Extra["alloc_max_case"] = maxAllocCase
-	r.Extra["alloc_bound_checked"] = "heap bytes allocated by one btc.NewTx call ≤ 64·len(input) + 8192 on every case (exact runtime.MemStats.TotalAlloc delta on alloc_cases_measured cases, runtime/metrics /gc/heap/allocs:bytes delta on the rest)"
+	r.Extra["alloc_bound_checked"] = "heap bytes allocated by one btc.NewTx call ≤ 64·len(input) + 8192 on every case (exact runtime.MemStats.TotalAlloc delta on alloc_cases_measured cases; on the rest the cheaper runtime/metrics /gc/heap/allocs:bytes delta with 4 MiB slack)"
 	r.Assume = []string{
 		"SHA-256 is modelled (Lean executable version validated here against Go's crypto/sha256 on every accepted case); theorems are parametric in the hash",
-		"the byte slice handed to btc.NewTx has cap == len (Go slice expressions check capacity, so a sub-slice of a larger buffer may be read past its length)",
 		"inputs shorter than 2^30 bytes (uint32 size fields do not wrap)",
 		"the reference parser in this harness (refParse/refSerialize) states BIP144 + Bitcoin Core's UnserializeTransaction/ReadCompactSize",
 		"documented deviation kept out of the accept/refuse comparison: a transaction with ZERO inputs whose next byte is neither 00 nor 01 is read by btc.NewTx as a legacy transaction without inputs, whereas Core refuses it as 'unknown optional data'; it re-encodes identically and is refused later by CheckTransaction (vin empty); counted in the histogram as accept-zero-input-flags(core-refuses)",
